@@ -10,7 +10,7 @@ package main
 // its $fsw / $out effects are exactly those of Run.
 
 //@ func main()
-//@   effects env-read, stderr, exit, fs-write, fs-read, parsefile, log, stdout, random
+//@   effects env-read, stderr, exit, fs-write, fs-read, parsefile, log, stdout, random, warn
 //@   assigns anything
 //@   atcall Exit: {C14,C18} $arg0 == 1
 //@   atcall Run: {C18,C15} $arg0.Output == config.outputOf($arg0.Input) && $arg0.Input == config.inputOf() && $arg0.DryRun == flagBool("dry") && $arg0.Prints == flagBool("print")
